@@ -55,6 +55,24 @@ def negInv64 (m : Nat) : Nat :=
 def powMod (x e m : Nat) : Nat :=
   (List.range (Nat.log2 e + 1)).foldr (fun i acc => (acc * acc % m) * (if e / 2 ^ i % 2 = 1 then x % m else 1) % m) (1 % m)
 
+
+/-- unsaturated (62-bit limb) integers: words `< 2^62` packed in 64-bit words of the token -/
+def u62val (u x : Nat) : Nat := (List.range u).foldl (fun acc i => acc + (x / B ^ i % B % 2 ^ 62) * 2 ^ (62 * i)) 0
+def u62enc (u v : Nat) : Nat := (List.range u).foldl (fun acc i => acc + (v / 2 ^ (62 * i) % 2 ^ 62) * B ^ i) 0
+def u62sgn (u v : Nat) : Int := if 2 * (v % 2 ^ (62 * u)) ≥ 2 ^ (62 * u) then ((v % 2 ^ (62 * u) : Nat) : Int) - ((2 ^ (62 * u) : Nat) : Int) else ((v % 2 ^ (62 * u) : Nat) : Int)
+def u62ofInt (u : Nat) (i : Int) : Nat := u62enc u (i % ((2 ^ (62 * u) : Nat) : Int)).toNat
+def s64 (x : Nat) : Int := if x % B ≥ HALF then ((x % B : Nat) : Int) - (B : Int) else ((x % B : Nat) : Int)
+def w64 (i : Int) : Nat := (i % (B : Int)).toNat
+def bitlen (x : Nat) : Nat := if x = 0 then 0 else Nat.log2 x + 1
+/-- modular inverse by the extended Euclidean algorithm on `Int` (specification side) -/
+def egcdInv (a m : Nat) : Option Nat :=
+  let rec go (fuel : Nat) (r0 r1 : Int) (s0 s1 : Int) : Int × Int :=
+    match fuel with
+    | 0 => (r0, s0)
+    | f + 1 => if r1 = 0 then (r0, s0) else go f r1 (r0 - (r0 / r1) * r1) s1 (s0 - (r0 / r1) * s1)
+  let r := go (2 * (bitlen a + bitlen m) + 4) (a % m : Nat) m 1 0
+  if r.1 = 1 then some (r.2 % (m : Int)).toNat else if m = 1 then some 0 else none
+
 abbrev Fn := List Nat → String
 def bad : String := "bad-args"
 
@@ -111,11 +129,11 @@ def ops : List (String × String × Fn) := [
     | [n, a, s] => let r := (overflowingShr n (sec n a) (Sec.ofNat s)).val
       s!"{opt (hx r.1) r.2} ;; {optB (natToHex (a / 2 ^ s)) (s < 64 * n)}"
     | _ => bad),
-  op "c01.leak.shl_limb" "dhd" (fun
+  op "c01.hook.shl_limb" "dhd" (fun
     | [n, a, s] => let r := (shlLimb n (sec n a) (Sec.ofNat s)).val
       s!"{hx r.1} {wd r.2} ;; {natToHex (a * 2 ^ s % B ^ n)} {natToHex (a * 2 ^ s / B ^ n)}"
     | _ => bad),
-  op "c01.leak.shr1" "dh" (fun
+  op "c01.hook.shr1" "dh" (fun
     | [n, a] => s!"{hx (shr1 n (sec n a)).val} ;; {natToHex (a / 2)}"
     | _ => bad),
   -- ---- bit queries
@@ -136,7 +154,7 @@ def ops : List (String × String × Fn) := [
       let l0 := s!"{natToHex ((a + b) % p)} {natToHex ((a + p - b) % p)} {natToHex ((p - a) % p)}"
       s!"{l1} ;; {l0}"
     | _ => bad),
-  op "c01.leak.sub_mod_with_carry" "dhdhh" (fun
+  op "c01.hook.sub_mod_with_carry" "dhdhh" (fun
     | [n, a, c, b, p] =>
       -- requires a + c·2^BITS - b < p … as the callers guarantee; the spec is the modular difference
       s!"{hx (subModWithCarry n (sec n a) (Sec.ofNat c) (sec n b) (sec n p)).val} ;; {natToHex ((a + c * B ^ n + p - b) % p)}"
@@ -167,7 +185,7 @@ def ops : List (String × String × Fn) := [
       s!"{hx c} {hx s.1} {hx s.2} {hx r} {hx w} ;; {natToHex (a + B ^ n * b)} {natToHex a} {natToHex b} {natToHex a} {natToHex b}"
     | _ => bad),
   -- ---- division
-  op "c01.leak.reciprocal" "h" (fun
+  op "c01.hook.reciprocal" "h" (fun
     | [d] => s!"{wd (reciprocal (Sec.ofNat d)).val} ;; {natToHex ((B * B - 1) / d - B)}"
     | _ => bad),
   op "c01.leak.div_rem_limb" "dhh" (fun
@@ -278,9 +296,9 @@ def ops : List (String × String × Fn) := [
     | [na, a, nb, b, c, ch] =>
       let x := sec na a; let y := sec nb b; let m := B ^ na
       let ad := (boxedAdcAssign na nb x y (Sec.ofNat c)).val; let sb := (boxedSbbAssign na nb x y (Sec.ofNat c)).val
-      let l1 := s!"{hxl ad.1} {wd ad.2} {hxl sb.1} {wd sb.2} {hxl (boxedConditionalNegate na x (msk ch)).val} {hxl (boxedWrappingNeg na x).val} {mk (boxedIsZero na x).val} {hxl (boxedShr1 na x).val}"
+      let l1 := s!"{hxl ad.1} {wd ad.2} {hxl sb.1} {wd sb.2} {hxl (boxedConditionalNegate na x (msk ch)).val} {hxl (boxedWrappingNeg na x).val} {mk (boxedIsZero na x).val}"
       let bw := c / HALF
-      let l0 := s!"{nhl na ((a + b + c) % m)} {natToHex ((a + b + c) / m)} {nhl na ((a + m - b - bw) % m)} {natToHex (if a < b + bw then WMAX else 0)} {nhl na (if ch = 1 then (m - a) % m else a)} {nhl na ((m - a) % m)} {b01 (a == 0)} {nhl na (a / 2)}"
+      let l0 := s!"{nhl na ((a + b + c) % m)} {natToHex ((a + b + c) / m)} {nhl na ((a + m - b - bw) % m)} {natToHex (if a < b + bw then WMAX else 0)} {nhl na (if ch = 1 then (m - a) % m else a)} {nhl na ((m - a) % m)} {b01 (a == 0)}"
       s!"{l1} ;; {l0}"
     | _ => bad),
   op "c01.leak.boxed_ct" "dhhd" (fun
@@ -335,6 +353,64 @@ def ops : List (String × String × Fn) := [
       let ok (x : Nat) : Bool := a % 2 = 0 ∨ (x < 2 ^ kk ∧ x * a % 2 ^ kk = 1 % 2 ^ kk)
       let l0v (x : Nat) := if ok x then nhl n x else "no-inverse-found"
       s!"{hxl r.1} {mk r.2} {hxl v.1} {mk v.2} ;; {l0v (vl r.1)} {b01 some} {l0v (vl v.1)} {b01 some}"
+    | _ => bad),
+  op "c01.hook.boxed_shr1" "dh" (fun
+    | [n, a] => s!"{hxl (boxedShr1 n (sec n a)).val} ;; {nhl n (a / 2)}"
+    | _ => bad),
+  -- ---- safegcd: UnsatInt arithmetic (u 62-bit limbs held in 64-bit words), jump, fg, de, divsteps (hooks), inv_odd_mod, gcd
+  op "c01.hook.unsat" "dhhh" (fun
+    | [u, a, b, o] =>
+      let x := sec u a; let y := sec u b; let so := Sec.ofNat o
+      let l1 := s!"{hx (unsatAdd u x y).val} {hx (unsatMul u x so).val} {hx (unsatNeg u x).val} {hx (unsatShr u x).val} {mk (unsatEq u x y).val} {mk (unsatIsNegative u x).val} {wd (unsatBits u x).val} {hx (unsatSelect u x y (msk (o % 2))).val}"
+      let va := u62val u a; let vb := u62val u b; let ia := u62sgn u va
+      let l0 := s!"{natToHex (u62enc u ((va + vb) % 2 ^ (62 * u)))} {natToHex (u62ofInt u (ia * s64 o))} {natToHex (u62ofInt u (-ia))} {natToHex (u62ofInt u (ia / ((2 ^ 62 : Nat) : Int)))} {b01 (va == vb)} {b01 (decide (ia < 0))} {natToHex (bitlen va)} {natToHex (if o % 2 = 1 then u62enc u vb else u62enc u va)}"
+      s!"{l1} ;; {l0}"
+    | _ => bad),
+  op "c01.hook.unsat_conv" "dh" (fun
+    | [n, a] =>
+      let u := unsatLimbs n
+      let c := (unsatFromUint n u (sec n a)).val
+      s!"{hx c} {hx (unsatToUint u n c).val} ;; {natToHex (u62enc u a)} {natToHex a}"
+    | _ => bad),
+  op "c01.hook.jump" "hhh" (fun
+    | [f, g, d] =>
+      let r := (jumpFull (Sec.ofNat f) (Sec.ofNat g) (Sec.ofNat d)).val
+      s!"{wd r.1} {wd r.2.1} {wd r.2.2.1} {wd r.2.2.2.1} {wd r.2.2.2.2}"
+    | _ => bad),
+  op "c01.hook.fgde" "dhhhhhhhhhh" (fun
+    | [u, f, g, d, e, m, inv, t00, t01, t10, t11] =>
+      let s := fun x => Sec.ofNat x
+      let r := (fgStep u (sec u f) (sec u g) (s t00) (s t01) (s t10) (s t11)).val
+      let q := (deStep u (sec u m) (s inv) (s t00) (s t01) (s t10) (s t11) (sec u d) (sec u e)).val
+      let l1 := s!"{hx r.1} {hx r.2} {hx q.1} {hx q.2}"
+      let iv := fun x => u62sgn u (u62val u x)
+      -- the sums are formed modulo 2^(62u) (as `UnsatInt::add` wraps), then shifted arithmetically
+      let sh := fun (i : Int) => natToHex (u62ofInt u (u62sgn u (i % ((2 ^ (62 * u) : Nat) : Int)).toNat / ((2 ^ 62 : Nat) : Int)))
+      let dn : Int := if iv d < 0 then 1 else 0
+      let en : Int := if iv e < 0 then 1 else 0
+      let md := fun (a b : Int) =>
+        let m0 := a * dn + b * en
+        let dl : Nat := d % B % 2 ^ 62
+        let el : Nat := e % B % 2 ^ 62
+        let c : Nat := (w64 (a * (dl : Int) + b * (el : Int))) % 2 ^ 62
+        let r : Nat := (w64 (s64 inv * (c : Int) + m0)) % 2 ^ 62
+        m0 - (r : Int)
+      let l0 := s!"{sh (s64 t00 * iv f + s64 t01 * iv g)} {sh (s64 t10 * iv f + s64 t11 * iv g)} {sh (s64 t00 * iv d + s64 t01 * iv e + md (s64 t00) (s64 t01) * iv m)} {sh (s64 t10 * iv d + s64 t11 * iv e + md (s64 t10) (s64 t11) * iv m)}"
+      s!"{l1} ;; {l0}"
+    | _ => bad),
+  op "c01.hook.divsteps" "dhhhh" (fun
+    | [u, e, f0, g, inv] =>
+      let r := (divsteps u (sec u e) (sec u f0) (sec u g) (Sec.ofNat inv)).val
+      s!"{hx r.1} {hx r.2}"
+    | _ => bad),
+  op "c01.leak.inv_odd_mod" "dhh" (fun   -- modulus odd
+    | [n, m, v] =>
+      let r := (safegcdInv n (sec n m) (sec n v)).val
+      s!"{opt (hx r.1) r.2} ;; {match egcdInv v m with | some x => natToHex x | none => "none"}"
+    | _ => bad),
+  op "c01.leak.gcd" "dhh" (fun
+    | [n, a, b] =>
+      s!"{hx (ugcd n (sec n a) (sec n b)).val} ;; {natToHex (Nat.gcd a b)}"
     | _ => bad)
 ]
 
